@@ -11,6 +11,8 @@ static const scpi_command_t cmds[] = {
     { "Q1?", vh_handler, 1 }, { "Q2?", vh_handler, 2 }, { "Q3?", vh_handler, 3 }, { "Q4?", vh_handler, 4 },
     { "QUEry?", vh_handler, 5 }, { "SYSTem:Q6?", vh_handler, 6 }, { "SYSTem:Q7?", vh_handler, 7 }, { "*Q8?", vh_handler, 8 },
     { "C1", vh_handler, 9 }, { "SYSTem:C2", vh_handler, 10 }, { "*C3", vh_handler, 11 },
+    /* entries without a handler (the callback column is the application's): they accept their header, run nothing, answer nothing */
+    { "STANDby", NULL, 12 }, { "SYSTem:IDLE", NULL, 13 }, { "H3?", NULL, 14 }, { "*H4", NULL, 15 },
     SCPI_CMD_LIST_END
 };
 static const char * const hdr_short[NQ + NC] = { "Q1?", "q2?", ":Q3?", "Q4?", "QUE?", ":SYST:Q6?", "SYSTEM:Q7?", "*Q8?", "C1", ":SYST:C2", "*C3" };
@@ -127,6 +129,9 @@ static void gen_message(vh_rng_t * rng, msg_t * m) {
             }
             /* sometimes an unread parameter: the unit still responds, then -108 is queued */
             if (vh_chance(rng, 1, 12)) { vh_buf_adds(&m->text, " 1"); vh_buf_addc(&m->shape, '+'); }
+        } else if (kind < 74) {
+            static const char * const nohandler[] = { "STANDBY", "stand", ":SYST:IDLE", "H3?", "*H4", "*h4" };
+            put_header(m, nohandler[vh_below(rng, 6)]); vh_buf_addc(&m->shape, 'h'); vh_count("units.accepted_by_an_entry_without_handler", 1);
         } else if (kind < 82) {
             int c = NQ + (int) vh_below(rng, NC);
             put_header(m, vh_chance(rng, 1, 2) ? hdr_short[c] : hdr_long[c]);
@@ -262,9 +267,9 @@ static void p0_run(uint64_t idx, vh_rng_t * rng) {
     if (m.responders >= 2) vh_count("msg.two_or_more_responders", 1);
     { const char * s = vh_buf_cstr(&m.shape); size_t i, n = strlen(s);
       for (i = 0; i + 1 < n; i++) {
-          int a_resp = strchr("Qpe", s[i]) != NULL, b_silent = strchr("nfEuxc0", s[i + 1]) != NULL;
+          int a_resp = strchr("Qpe", s[i]) != NULL, b_silent = strchr("nfEuxc0h", s[i + 1]) != NULL;
           if (a_resp && b_silent) vh_count("shape.responder_then_silent_unit", 1);
-          if (strchr("nfEuxc0", s[i]) && strchr("Qpe", s[i + 1])) vh_count("shape.silent_unit_then_responder", 1);
+          if (strchr("nfEuxc0h", s[i]) && strchr("Qpe", s[i + 1])) vh_count("shape.silent_unit_then_responder", 1);
       }
       if (strchr(s, 'p')) vh_count("shape.fails_after_partial_output", 1);
       if (strchr(s, 'n')) vh_count("shape.query_emitting_nothing", 1);
@@ -335,7 +340,7 @@ static void p1_run(uint64_t idx, vh_rng_t * rng) {
 int main(int argc, char ** argv) {
     static const vh_phase_t phases[] = { { "messages", p0_count, p0_run }, { "abandoned and re-entered parses", p1_count, p1_run } };
     vh_scribble_chunk_in_callbacks(1); vh_decoy_enable(7); vh_require("decoy.messages_run_on_a_second_context"); vh_require("items.long_ascii_array"); vh_require("abandoned.message_after_a_parse_that_never_finished"); vh_require("reentrant.line_parsed_from_the_flush_callback"); vh_require("status.service_request_raised_during_the_message"); vh_require("nested.other_context_parsed_before_first_result"); vh_require("nested.other_context_parsed_on_handler_entry"); vh_require("msg.with_response"); vh_require("msg.nothing_responds"); vh_require("msg.two_or_more_responders");
-    vh_require("shape.responder_then_silent_unit"); vh_require("shape.silent_unit_then_responder"); vh_require("shape.fails_after_partial_output");
+    vh_require("units.accepted_by_an_entry_without_handler"); vh_require("shape.responder_then_silent_unit"); vh_require("shape.silent_unit_then_responder"); vh_require("shape.fails_after_partial_output");
     vh_require("shape.query_emitting_nothing"); vh_require("shape.query_failing_before_output"); vh_require("shape.single_partial_failure");
     return vh_main(argc, argv, "C06", phases, 2);
 }
